@@ -619,6 +619,11 @@ def ceval(n, bind, defs=None, depth=0):
         name = s.callee['name']
         a = s.args()
         import math
+        if name in ('sqrt', 'sqrtl', 'sqrtf') and len(a) == 1:
+            x = ceval(a[0], bind, defs, depth + 1)
+            if x < 0:
+                raise Unknown('sqrt of a negative number')
+            return math.sqrt(x)
         if name in ('ceil', 'floor', 'round', 'trunc') and len(a) == 1:
             x = ceval(a[0], bind, defs, depth + 1)
             return float({'ceil': math.ceil, 'floor': math.floor, 'round': round, 'trunc': math.trunc}[name](x))
